@@ -1168,21 +1168,33 @@ fn op_fmt(c: &Value) -> R {
     Ok(run_flat(|| {
         let mut items: Vec<Value> = Vec::new();
         let mut add = |what: &str, text: String| items.push(json!({"what": what, "text": text}));
+        // alternate renderings ({:#?} / {:#}) of the same values: "<what>#"
 
         let kdate = ks.to_kdate(d);
         let kregion = kdate.to_kregion(region);
         let kservice = kregion.to_kservice(service);
         let ksigning = kservice.to_ksigning();
         add("KSecretKey Debug", format!("{ks:?}"));
+        add("KSecretKey Debug#", format!("{ks:#?}"));
         add("KSecretKey Display", format!("{ks}"));
+        add("KSecretKey Display#", format!("{ks:#}"));
         add("KDateKey Debug", format!("{kdate:?}"));
+        add("KDateKey Debug#", format!("{kdate:#?}"));
         add("KDateKey Display", format!("{kdate}"));
+        add("KDateKey Display#", format!("{kdate:#}"));
         add("KRegionKey Debug", format!("{kregion:?}"));
+        add("KRegionKey Debug#", format!("{kregion:#?}"));
         add("KRegionKey Display", format!("{kregion}"));
+        add("KRegionKey Display#", format!("{kregion:#}"));
         add("KServiceKey Debug", format!("{kservice:?}"));
+        add("KServiceKey Debug#", format!("{kservice:#?}"));
         add("KServiceKey Display", format!("{kservice}"));
+        add("KServiceKey Display#", format!("{kservice:#}"));
         add("KSigningKey Debug", format!("{ksigning:?}"));
+        add("KSigningKey Debug#", format!("{ksigning:#?}"));
         add("KSigningKey Display", format!("{ksigning}"));
+
+        add("KSigningKey Display#", format!("{ksigning:#}"));
 
         match GetSigningKeyRequest::builder()
             .access_key("AKID")
@@ -1192,7 +1204,10 @@ fn op_fmt(c: &Value) -> R {
             .service(service)
             .build()
         {
-            Ok(req) => add("GetSigningKeyRequest Debug", format!("{req:?}")),
+            Ok(req) => {
+                add("GetSigningKeyRequest Debug", format!("{req:?}"));
+                add("GetSigningKeyRequest Debug#", format!("{req:#?}"));
+            }
             Err(e) => add("GetSigningKeyRequest build error", e.to_string()),
         }
 
@@ -1207,8 +1222,10 @@ fn op_fmt(c: &Value) -> R {
         match builder.build() {
             Ok(resp) => {
                 add("GetSigningKeyResponse Debug", format!("{resp:?}"));
+                add("GetSigningKeyResponse Debug#", format!("{resp:#?}"));
                 let auth_resp = SigV4AuthenticatorResponse::from(resp);
                 add("SigV4AuthenticatorResponse Debug", format!("{auth_resp:?}"));
+            add("SigV4AuthenticatorResponse Debug#", format!("{auth_resp:#?}"));
             }
             Err(e) => add("GetSigningKeyResponse build error", e.to_string()),
         }
@@ -1220,13 +1237,19 @@ fn op_fmt(c: &Value) -> R {
             .signature("sig".to_string())
             .request_timestamp(DateTime::<Utc>::UNIX_EPOCH);
         add("SigV4AuthenticatorBuilder Debug", format!("{ab:?}"));
+        add("SigV4AuthenticatorBuilder Debug#", format!("{ab:#?}"));
         match ab.build() {
-            Ok(a) => add("SigV4Authenticator Debug", format!("{a:?}")),
+            Ok(a) => {
+                add("SigV4Authenticator Debug", format!("{a:?}"));
+                add("SigV4Authenticator Debug#", format!("{a:#?}"));
+            }
             Err(e) => add("SigV4Authenticator build error", e.to_string()),
         }
 
         add("KeyTooLongError Debug", format!("{KeyTooLongError:?}"));
+        add("KeyTooLongError Debug#", format!("{KeyTooLongError:#?}"));
         add("KeyTooLongError Display", format!("{KeyTooLongError}"));
+        add("KeyTooLongError Display#", format!("{KeyTooLongError:#}"));
         drop(add);
         json!({"items": items})
     }))
